@@ -68,7 +68,7 @@ BUILT = {
 
 props = [json.loads(l) for l in open('/verif/properties.jsonl')]
 hooks = subprocess.run(['git','-C','/repo','log','--format=%h %s'],capture_output=True,text=True).stdout.splitlines()
-hook_commits = [l.split()[0] for l in hooks if l.split(' ',1)[1].startswith('verif hooks')]
+hook_commits = [l.split()[0] for l in hooks if l.split(' ',1)[1].startswith('verif hook')]
 m = {
  "version": 1,
  "setup_cmd": "sh -c 'export GOFLAGS=-mod=mod GOPROXY=off GOSUMDB=off GOTOOLCHAIN=local; mkdir -p bin && cd harness && go build -o ../bin/check ./cmd/check && go build -tags verif -o /dev/null ./cmd/vdriver'",
